@@ -381,14 +381,14 @@ func (w *world) exec(a *act) string {
 	case "round":
 		cons := w.consKeys()
 		thr := (2*len(cons) + 2) / 3
-		res := "ok"
+		res := "err"
 		for _, pk := range cons[:thr] {
 			r := w.approve1(a, types.AddressFromPubKey(pk))
 			if r == "panic" {
 				return "panic"
 			}
-			if r == "hit" {
-				res = "hit"
+			if r == "hit" || (r == "ok" && res == "err") {
+				res = r
 			}
 		}
 		return res
